@@ -29,10 +29,10 @@ import (
 // ---- yield controller ----
 
 type parker struct {
-	mu      sync.Mutex
-	armed   map[string]bool
-	parked  map[string]chan struct{} // point -> closed when a goroutine has parked there
-	resume  map[string]chan struct{}
+	mu     sync.Mutex
+	armed  map[string]bool
+	parked map[string]chan struct{} // point -> closed when a goroutine has parked there
+	resume map[string]chan struct{}
 }
 
 func newParker() *parker {
@@ -221,9 +221,13 @@ func concSchedules(seed uint64) []schedule {
 			return fmt.Sprintf("ok %d", x)
 		}, func(out string, e *concEnv) bool { return out == "ok 6" || strings.HasPrefix(out, "err closed") }},
 		{"GetLog:after-closed-check", func(e *concEnv) string { return readOutcome(e.w, 2) },
-			func(out string, e *concEnv) bool { return out == "ok "+e.logs[2] || strings.HasPrefix(out, "err closed") }},
+			func(out string, e *concEnv) bool {
+				return out == "ok "+e.logs[2] || strings.HasPrefix(out, "err closed")
+			}},
 		{"acquireState:between-load-and-acquire", func(e *concEnv) string { return readOutcome(e.w, 2) },
-			func(out string, e *concEnv) bool { return out == "ok "+e.logs[2] || strings.HasPrefix(out, "err closed") }},
+			func(out string, e *concEnv) bool {
+				return out == "ok "+e.logs[2] || strings.HasPrefix(out, "err closed")
+			}},
 		{"StoreLogs:before-lock", func(e *concEnv) string {
 			err := e.w.StoreLogs([]*raft.Log{{Index: 7, Term: 2, Data: []byte("late")}})
 			if err != nil {
@@ -356,48 +360,86 @@ func concSchedules(seed uint64) []schedule {
 			return fmt.Sprintf("writers=[ok %s] close=%s rotator=exited rotations=0 panic=false io-after-close=false", st, cl)
 		},
 		run: func() (string, []Violation) {
-		e, err := newConcEnv(150, 0)
+			e, err := newConcEnv(150, 0)
+			if err != nil {
+				return "setup-err", nil
+			}
+			defer e.close()
+			steps := []string{"segment size 150", "StoreLogs #1 fills the segment; the rotation goroutine is parked before taking the lock",
+				"StoreLogs #2 is parked waiting for the rotation", "Close() runs", "everything resumed"}
+			e.p.arm("runRotate:before-lock")
+			big := &raft.Log{Index: 1, Term: 1, Data: []byte(strings.Repeat("a", 200))}
+			if err := e.w.StoreLogs([]*raft.Log{big}); err != nil {
+				return "setup-err " + err.Error(), nil
+			}
+			if !e.p.waitParked("runRotate:before-lock", concTimeout) {
+				return "rotation-not-triggered", nil
+			}
+			e.p.arm("awaitRotation:before-receive")
+			st2 := goCall(func() string {
+				err := e.w.StoreLogs([]*raft.Log{{Index: 2, Term: 1, Data: []byte("second")}})
+				if err != nil {
+					return walClass(err)
+				}
+				return "ok"
+			})
+			if !e.p.waitParked("awaitRotation:before-receive", concTimeout) {
+				return "writer-not-waiting", nil
+			}
+			cl := goCall(func() string { return walClass(e.w.Close()) })
+			clOut := cl.wait(concTimeout)
+			e.p.release("awaitRotation:before-receive")
+			e.p.release("runRotate:before-lock")
+			res := st2.wait(concTimeout)
+			outcome := fmt.Sprintf("close=%s store2=%s", clOut, res)
+			if res == "blocked" || clOut == "blocked" {
+				return outcome, v("C14", "StoreLogs waiting for a rotation is never woken when Close wins the race (deadlock)", outcome, steps...)
+			}
+			if strings.HasPrefix(res, "panic") {
+				return outcome, v("C14", "a call racing with Close panicked", res, steps...)
+			}
+			if res != "ok" && res != "err closed" {
+				return outcome, v("C14", "a call racing with Close returned neither a correct result nor ErrClosed", res, steps...)
+			}
+			return outcome, nil
+		}})
+	// ---- C14: two Close calls overlap ----
+	out = append(out, schedule{name: "close-vs-close", props: []string{"C14"}, run: func() (string, []Violation) {
+		e, err := newConcEnv(4096, 3)
 		if err != nil {
 			return "setup-err", nil
 		}
 		defer e.close()
-		steps := []string{"segment size 150", "StoreLogs #1 fills the segment; the rotation goroutine is parked before taking the lock",
-			"StoreLogs #2 is parked waiting for the rotation", "Close() runs", "everything resumed"}
-		e.p.arm("runRotate:before-lock")
-		big := &raft.Log{Index: 1, Term: 1, Data: []byte(strings.Repeat("a", 200))}
-		if err := e.w.StoreLogs([]*raft.Log{big}); err != nil {
-			return "setup-err " + err.Error(), nil
+		steps := []string{"3 entries", "Close A parked before it takes the write lock", "Close B runs to completion", "Close A resumed", "a third Close"}
+		e.p.arm("Close:before-lock")
+		a := goCall(func() string { return walClass(e.w.Close()) })
+		if !e.p.waitParked("Close:before-lock", concTimeout) {
+			return "not-parked", nil
 		}
-		if !e.p.waitParked("runRotate:before-lock", concTimeout) {
-			return "rotation-not-triggered", nil
-		}
-		e.p.arm("awaitRotation:before-receive")
-		st2 := goCall(func() string {
-			err := e.w.StoreLogs([]*raft.Log{{Index: 2, Term: 1, Data: []byte("second")}})
-			if err != nil {
-				return walClass(err)
+		b := goCall(func() string { return walClass(e.w.Close()) }).wait(concTimeout)
+		e.p.release("Close:before-lock")
+		ra := a.wait(concTimeout)
+		c3 := goCall(func() string { return walClass(e.w.Close()) }).wait(concTimeout)
+		outcome := fmt.Sprintf("closeA=%s closeB=%s closeC=%s", ra, b, c3)
+		var viols []Violation
+		for _, r := range []string{ra, b, c3} {
+			if strings.HasPrefix(r, "panic") {
+				viols = append(viols, v("C14", "overlapping Close calls panic", outcome, steps...)...)
+				break
 			}
-			return "ok"
-		})
-		if !e.p.waitParked("awaitRotation:before-receive", concTimeout) {
-			return "writer-not-waiting", nil
+			if r == "blocked" {
+				viols = append(viols, v("C14", "overlapping Close calls never return", outcome, steps...)...)
+				break
+			}
+			if r != "ok" {
+				viols = append(viols, v("C14", "a further Close call is not a no-op", outcome, steps...)...)
+				break
+			}
 		}
-		cl := goCall(func() string { return walClass(e.w.Close()) })
-		clOut := cl.wait(concTimeout)
-		e.p.release("awaitRotation:before-receive")
-		e.p.release("runRotate:before-lock")
-		res := st2.wait(concTimeout)
-		outcome := fmt.Sprintf("close=%s store2=%s", clOut, res)
-		if res == "blocked" || clOut == "blocked" {
-			return outcome, v("C14", "StoreLogs waiting for a rotation is never woken when Close wins the race (deadlock)", outcome, steps...)
+		if _, err := e.w.FirstIndex(); err == nil || walClass(err) != "err closed" {
+			viols = append(viols, v("C14", "FirstIndex after Close did not return ErrClosed", fmt.Sprint(err), steps...)...)
 		}
-		if strings.HasPrefix(res, "panic") {
-			return outcome, v("C14", "a call racing with Close panicked", res, steps...)
-		}
-		if res != "ok" && res != "err closed" {
-			return outcome, v("C14", "a call racing with Close returned neither a correct result nor ErrClosed", res, steps...)
-		}
-		return outcome, nil
+		return outcome, viols
 	}})
 	// ---- C14: a rotation queued by the last append, not yet started when Close runs ----
 	out = append(out, schedule{name: "close-vs-queued-rotation", props: []string{"C14"},
@@ -414,41 +456,41 @@ func concSchedules(seed uint64) []schedule {
 			return fmt.Sprintf("writers=[ok] close=%s rotator=exited rotations=0 panic=false io-after-close=%s", cl, io)
 		},
 		run: func() (string, []Violation) {
-		e, err := newConcEnv(150, 0)
-		if err != nil {
-			return "setup-err", nil
-		}
-		defer e.close()
-		steps := []string{"segment size 150", "StoreLogs fills the segment; the rotation goroutine is parked before taking the lock",
-			"Close() runs to completion (twice)", "the rotation goroutine is resumed", "FirstIndex/StoreLogs are called"}
-		e.p.arm("runRotate:before-lock")
-		big := &raft.Log{Index: 1, Term: 1, Data: []byte(strings.Repeat("a", 200))}
-		if err := e.w.StoreLogs([]*raft.Log{big}); err != nil {
-			return "setup-err " + err.Error(), nil
-		}
-		if !e.p.waitParked("runRotate:before-lock", concTimeout) {
-			return "rotation-not-triggered", nil
-		}
-		c1 := goCall(func() string { return walClass(e.w.Close()) }).wait(concTimeout)
-		c2 := goCall(func() string { return walClass(e.w.Close()) }).wait(concTimeout)
-		nev := e.d.NumEvents()
-		e.p.release("runRotate:before-lock")
-		time.Sleep(150 * time.Millisecond) // a panic in the rotation goroutine kills this (child) process here
-		_, ferr := e.w.FirstIndex()
-		serr := e.w.StoreLogs([]*raft.Log{{Index: 2, Term: 1, Data: []byte("late")}})
-		outcome := fmt.Sprintf("close=%s,%s first=%s store=%s io-after-close=%d", c1, c2, walClass(ferr), walClass(serr), e.d.NumEvents()-nev)
-		var viols []Violation
-		if c1 == "blocked" || c2 == "blocked" {
-			viols = append(viols, v("C14", "Close blocks while a rotation is queued", outcome, steps...)...)
-		}
-		if walClass(ferr) != "err closed" || walClass(serr) != "err closed" {
-			viols = append(viols, v("C14", "a call after Close does not return ErrClosed", outcome, steps...)...)
-		}
-		if e.d.NumEvents() != nev {
-			viols = append(viols, v("C14", "the rotation queued before Close performed I/O after Close had returned", outcome, steps...)...)
-		}
-		return outcome, viols
-	}})
+			e, err := newConcEnv(150, 0)
+			if err != nil {
+				return "setup-err", nil
+			}
+			defer e.close()
+			steps := []string{"segment size 150", "StoreLogs fills the segment; the rotation goroutine is parked before taking the lock",
+				"Close() runs to completion (twice)", "the rotation goroutine is resumed", "FirstIndex/StoreLogs are called"}
+			e.p.arm("runRotate:before-lock")
+			big := &raft.Log{Index: 1, Term: 1, Data: []byte(strings.Repeat("a", 200))}
+			if err := e.w.StoreLogs([]*raft.Log{big}); err != nil {
+				return "setup-err " + err.Error(), nil
+			}
+			if !e.p.waitParked("runRotate:before-lock", concTimeout) {
+				return "rotation-not-triggered", nil
+			}
+			c1 := goCall(func() string { return walClass(e.w.Close()) }).wait(concTimeout)
+			c2 := goCall(func() string { return walClass(e.w.Close()) }).wait(concTimeout)
+			nev := e.d.NumEvents()
+			e.p.release("runRotate:before-lock")
+			time.Sleep(150 * time.Millisecond) // a panic in the rotation goroutine kills this (child) process here
+			_, ferr := e.w.FirstIndex()
+			serr := e.w.StoreLogs([]*raft.Log{{Index: 2, Term: 1, Data: []byte("late")}})
+			outcome := fmt.Sprintf("close=%s,%s first=%s store=%s io-after-close=%d", c1, c2, walClass(ferr), walClass(serr), e.d.NumEvents()-nev)
+			var viols []Violation
+			if c1 == "blocked" || c2 == "blocked" {
+				viols = append(viols, v("C14", "Close blocks while a rotation is queued", outcome, steps...)...)
+			}
+			if walClass(ferr) != "err closed" || walClass(serr) != "err closed" {
+				viols = append(viols, v("C14", "a call after Close does not return ErrClosed", outcome, steps...)...)
+			}
+			if e.d.NumEvents() != nev {
+				viols = append(viols, v("C14", "the rotation queued before Close performed I/O after Close had returned", outcome, steps...)...)
+			}
+			return outcome, viols
+		}})
 	// ---- C06 / C13: a reader pinning an old state across truncations ----
 	for _, kind := range []string{"head", "tail"} {
 		kind := kind
@@ -466,89 +508,89 @@ func concSchedules(seed uint64) []schedule {
 				}
 				return fmt.Sprintf("readers=[%s] close=running writer-pending=0 double-close=false", c)
 			}, run: func() (string, []Violation) {
-			e, err := newConcEnv(200, 8) // several segments
-			if err != nil {
-				return "setup-err", nil
-			}
-			defer e.close()
-			before := e.d.FileNames()
-			// reader of an index that the truncation removes, parked inside its first ReadAt (it holds a reference)
-			victim := uint64(1)
-			if kind == "tail" {
-				victim = 8
-			}
-			parkedRead := make(chan struct{})
-			resumeRead := make(chan struct{})
-			var once sync.Once
-			e.d.ReadHook = func(name string) {
-				once.Do(func() { close(parkedRead); <-resumeRead })
-			}
-			rd := goCall(func() string { return readOutcome(e.w, victim) })
-			select {
-			case <-parkedRead:
-			case <-time.After(concTimeout):
-				return "reader-not-parked", nil
-			}
-			e.d.ReadHook = nil
-			var terr error
-			if kind == "head" {
-				terr = e.w.DeleteRange(1, 5)
-			} else {
-				terr = e.w.DeleteRange(4, 8)
-			}
-			steps := []string{"8 entries over several segments", fmt.Sprintf("GetLog(%d) parked inside its first file read (holds a reference to the state)", victim),
-				kind + " truncation runs to completion", "reader resumed"}
-			var viols []Violation
-			if terr != nil {
-				viols = append(viols, v("C06", "truncation failed while a reader was in flight", terr.Error(), steps...)...)
-			}
-			during := e.d.FileNames()
-			// an entry that stays in the log must be readable while the old state is pinned
-			stay := uint64(6)
-			if kind == "tail" {
-				stay = 2
-			}
-			if o := readOutcome(e.w, stay); o != "ok "+e.logs[stay] {
-				viols = append(viols, v("C06", "an entry that stays in the log was not returned intact during a truncation", o, steps...)...)
-			}
-			if len(during) < len(before) {
-				// files deleted while a reader still references the old state
-				viols = append(viols, v("C06", "segment files were deleted while a reader still held the replaced state", fmt.Sprintf("%d files before, %d during", len(before), len(during)), steps...)...)
-			}
-			close(resumeRead)
-			res := rd.wait(concTimeout)
-			if res == "blocked" || strings.HasPrefix(res, "panic") {
-				viols = append(viols, v("C06", "pinned reader did not complete", res, steps...)...)
-			} else if res != "ok "+e.logs[victim] && !strings.HasPrefix(res, "err notfound") {
-				// an error other than not-found is only allowed for an index removed during the read: it was — but the
-				// reader held a reference taken while the state was current, so its files must still be open
-				viols = append(viols, v("C06", "a reader that pinned the state before the truncation got a wrong result", res, steps...)...)
-			}
-			// once the reader is done the files of wholly deleted segments must be gone (C13)
-			deadline := time.Now().Add(concTimeout)
-			for {
-				ps := e.d.MetaState()
-				live := map[string]bool{}
-				for _, si := range ps.Segments {
-					live[segmentName(si.BaseIndex, si.ID)] = true
+				e, err := newConcEnv(200, 8) // several segments
+				if err != nil {
+					return "setup-err", nil
 				}
-				extra := 0
-				for _, n := range e.d.FileNames() {
-					if !live[n] {
-						extra++
+				defer e.close()
+				before := e.d.FileNames()
+				// reader of an index that the truncation removes, parked inside its first ReadAt (it holds a reference)
+				victim := uint64(1)
+				if kind == "tail" {
+					victim = 8
+				}
+				parkedRead := make(chan struct{})
+				resumeRead := make(chan struct{})
+				var once sync.Once
+				e.d.ReadHook = func(name string) {
+					once.Do(func() { close(parkedRead); <-resumeRead })
+				}
+				rd := goCall(func() string { return readOutcome(e.w, victim) })
+				select {
+				case <-parkedRead:
+				case <-time.After(concTimeout):
+					return "reader-not-parked", nil
+				}
+				e.d.ReadHook = nil
+				var terr error
+				if kind == "head" {
+					terr = e.w.DeleteRange(1, 5)
+				} else {
+					terr = e.w.DeleteRange(4, 8)
+				}
+				steps := []string{"8 entries over several segments", fmt.Sprintf("GetLog(%d) parked inside its first file read (holds a reference to the state)", victim),
+					kind + " truncation runs to completion", "reader resumed"}
+				var viols []Violation
+				if terr != nil {
+					viols = append(viols, v("C06", "truncation failed while a reader was in flight", terr.Error(), steps...)...)
+				}
+				during := e.d.FileNames()
+				// an entry that stays in the log must be readable while the old state is pinned
+				stay := uint64(6)
+				if kind == "tail" {
+					stay = 2
+				}
+				if o := readOutcome(e.w, stay); o != "ok "+e.logs[stay] {
+					viols = append(viols, v("C06", "an entry that stays in the log was not returned intact during a truncation", o, steps...)...)
+				}
+				if len(during) < len(before) {
+					// files deleted while a reader still references the old state
+					viols = append(viols, v("C06", "segment files were deleted while a reader still held the replaced state", fmt.Sprintf("%d files before, %d during", len(before), len(during)), steps...)...)
+				}
+				close(resumeRead)
+				res := rd.wait(concTimeout)
+				if res == "blocked" || strings.HasPrefix(res, "panic") {
+					viols = append(viols, v("C06", "pinned reader did not complete", res, steps...)...)
+				} else if res != "ok "+e.logs[victim] && !strings.HasPrefix(res, "err notfound") {
+					// an error other than not-found is only allowed for an index removed during the read: it was — but the
+					// reader held a reference taken while the state was current, so its files must still be open
+					viols = append(viols, v("C06", "a reader that pinned the state before the truncation got a wrong result", res, steps...)...)
+				}
+				// once the reader is done the files of wholly deleted segments must be gone (C13)
+				deadline := time.Now().Add(concTimeout)
+				for {
+					ps := e.d.MetaState()
+					live := map[string]bool{}
+					for _, si := range ps.Segments {
+						live[segmentName(si.BaseIndex, si.ID)] = true
 					}
+					extra := 0
+					for _, n := range e.d.FileNames() {
+						if !live[n] {
+							extra++
+						}
+					}
+					if extra == 0 {
+						break
+					}
+					if time.Now().After(deadline) {
+						viols = append(viols, v("C13", "files of wholly deleted segments still present after the last reader released the old state", strings.Join(e.d.FileNames(), " "), steps...)...)
+						break
+					}
+					time.Sleep(time.Millisecond)
 				}
-				if extra == 0 {
-					break
-				}
-				if time.Now().After(deadline) {
-					viols = append(viols, v("C13", "files of wholly deleted segments still present after the last reader released the old state", strings.Join(e.d.FileNames(), " "), steps...)...)
-					break
-				}
-				time.Sleep(time.Millisecond)
-			}
-			return fmt.Sprintf("reader=%s files %d->%d->%d", clipS(res), len(before), len(during), len(e.d.FileNames())), viols
-		}})
+				return fmt.Sprintf("reader=%s files %d->%d->%d", clipS(res), len(before), len(during), len(e.d.FileNames())), viols
+			}})
 	}
 	// ---- C06: a reader that loaded the state pointer but has not taken its reference yet ----
 	out = append(out, schedule{name: "late-acquire-vs-head-truncation", props: []string{"C06"}, model: "conc 1,2,3 3 2,3|4 r0,r0,w,w,w,w,w,r0,r0,r0",
@@ -559,30 +601,30 @@ func concSchedules(seed uint64) []schedule {
 			}
 			return fmt.Sprintf("readers=[%s] close=running writer-pending=0 double-close=false", c)
 		}, run: func() (string, []Violation) {
-		e, err := newConcEnv(200, 8)
-		if err != nil {
-			return "setup-err", nil
-		}
-		defer e.close()
-		steps := []string{"8 entries over several segments", "GetLog(7) parked between loading the state pointer and taking its reference",
-			"DeleteRange(1,5) runs to completion (its finalizer closes and deletes the old segments)", "reader resumed"}
-		e.p.arm("acquireState:between-load-and-acquire")
-		rd := goCall(func() string { return readOutcome(e.w, 7) })
-		if !e.p.waitParked("acquireState:between-load-and-acquire", concTimeout) {
-			return "not-parked", nil
-		}
-		terr := e.w.DeleteRange(1, 5)
-		e.p.release("acquireState:between-load-and-acquire")
-		res := rd.wait(concTimeout)
-		var viols []Violation
-		if terr != nil {
-			viols = append(viols, v("C06", "truncation failed", terr.Error(), steps...)...)
-		}
-		if res != "ok "+e.logs[7] {
-			viols = append(viols, v("C06", "an entry that stays in the log throughout the read was not returned intact", res, steps...)...)
-		}
-		return "reader=" + clipS(res), viols
-	}})
+			e, err := newConcEnv(200, 8)
+			if err != nil {
+				return "setup-err", nil
+			}
+			defer e.close()
+			steps := []string{"8 entries over several segments", "GetLog(7) parked between loading the state pointer and taking its reference",
+				"DeleteRange(1,5) runs to completion (its finalizer closes and deletes the old segments)", "reader resumed"}
+			e.p.arm("acquireState:between-load-and-acquire")
+			rd := goCall(func() string { return readOutcome(e.w, 7) })
+			if !e.p.waitParked("acquireState:between-load-and-acquire", concTimeout) {
+				return "not-parked", nil
+			}
+			terr := e.w.DeleteRange(1, 5)
+			e.p.release("acquireState:between-load-and-acquire")
+			res := rd.wait(concTimeout)
+			var viols []Violation
+			if terr != nil {
+				viols = append(viols, v("C06", "truncation failed", terr.Error(), steps...)...)
+			}
+			if res != "ok "+e.logs[7] {
+				viols = append(viols, v("C06", "an entry that stays in the log throughout the read was not returned intact", res, steps...)...)
+			}
+			return "reader=" + clipS(res), viols
+		}})
 	// ---- C06: visibility only once durable ----
 	// a reader looks at the log from inside EVERY VFS write and fsync the append performs (before the call takes effect):
 	// until the append's last fsync has returned, nothing of the batch may be visible. Variants: an ordinary append, an
@@ -928,8 +970,8 @@ func stressRun(seed uint64, dur time.Duration, readers int) (reads int, viols []
 				cur = nx2
 				publish()
 				vmu.Lock()
-			dist["reappend"]++
-			vmu.Unlock()
+				dist["reappend"]++
+				vmu.Unlock()
 			}
 		}
 		if rng.Chance(1, 4) {
@@ -1112,6 +1154,29 @@ func stableConcReal(rounds int) (calls int, viols []Violation) {
 		if cur, err := w.Get([]byte("big")); err != nil || !bytes.Equal(cur, bigVal) {
 			add("log operations or writes to other keys altered a stable key", fmt.Sprintf("Get(big): err=%v len=%d", err, len(cur)))
 		}
+	}
+	// clearing a key: Set(k, nil) makes Get return nothing, now and after a restart
+	{
+		ck := []byte("cleared-key")
+		w.Set(ck, []byte("old value"))
+		w.SetUint64([]byte("cleared-u64"), 77)
+		e1 := w.Set(ck, nil)
+		e2 := w.Set([]byte("cleared-u64"), nil)
+		got, err := w.Get(ck)
+		gu, err2 := w.GetUint64([]byte("cleared-u64"))
+		if e1 != nil || e2 != nil || err != nil || err2 != nil || len(got) != 0 || gu != 0 {
+			add("a key set to nil still holds its old value", fmt.Sprintf("Set(k,nil)=%v,%v; Get=%q,%v GetUint64=%d,%v", e1, e2, got, err, gu, err2), "Set(k, v)", "Set(k, nil)", "Get(k)")
+		}
+		w.Close()
+		if w = open(); w == nil {
+			return
+		}
+		got, err = w.Get(ck)
+		gu, err2 = w.GetUint64([]byte("cleared-u64"))
+		if err != nil || err2 != nil || len(got) != 0 || gu != 0 {
+			add("a key set to nil holds its old value again after Close/Open", fmt.Sprintf("Get=%q,%v GetUint64=%d,%v", got, err, gu, err2), "Set(k, v)", "Set(k, nil)", "Close, Open", "Get(k)")
+		}
+		calls += 8
 	}
 	// the key space: every one-byte key and keys that look like the meta store's own names must be ordinary stable keys —
 	// log activity (rotations, truncations: meta commits) never alters them and they never alter the log
